@@ -219,9 +219,31 @@ Fixpoint c05_monotone (prev : list snap_entry) (h : list round) : bool :=
                                             (sn_perm e' || (sn_until e <=? sn_until e')%Z)) (r_snap r)) prev
      else true) && c05_monotone (if r_has_snap r then r_snap r else prev) rest
   end.
+(* C05: "a client asking for a specific free address of the pool is offered that address (addresses ending in .0 or .255 may be
+   passed over)": a broadcast DISCOVER of an unreserved, unbound client that suggests a host address of the dynamic range which the
+   listing before the packet shows free and for which no foreign host answers in this round - if it is answered with an OFFER, the OFFER
+   carries that address.  Judged only when the listing is that of the round just before (fresh). *)
+Definition c05_suggest_round (c : scfg) (prev : list snap_entry) (r : round) : bool :=
+  match parse_in (r_pkt r), r_outs r with
+  | Some i, [f] =>
+    let m := pi_msg i in let o := pi_opt i in
+    match o_reqip o, parse_out f with
+    | Some x, Some p =>
+      if (o_msgtype o =? 1) && (pi_dst i =? bcast_ip) && is_none (o_sid o) && negb (bytes_eqb (d_chaddr m) (c_self_mac c)) &&
+         is_none (reserved_ip c (d_chaddr m)) && is_none (snap_bound prev (r_t r) (get_duid c (d_chaddr m) (o_cid o))) &&
+         negb (dynamic_disabled (c_db c)) && in_dyn (c_db c) x && uip_valid x && negb (snap_taken prev (r_t r) x) &&
+         negb (foreign_answer r (d_chaddr m) x) && (typ p =? 2)
+      then d_yiaddr (po_msg p) =? x else true
+    | _, _ => true end
+  | _, _ => true end.
+Fixpoint c05_suggest (c : scfg) (prev : list snap_entry) (fresh : bool) (h : list round) : bool :=
+  match h with
+  | [] => true
+  | r :: rest => (negb fresh || c05_suggest_round c prev r) && c05_suggest c (if r_has_snap r then r_snap r else prev) (r_has_snap r) rest
+  end.
 Definition mon_C05 (c : scfg) (h : list round) : bool :=
   c05_scan c [] (events c h) && c05_hold c [] h && forallb ack_reserved h && c05_silence c (snap_of 0%Z (initial_table c)) h &&
-  c05_monotone (snap_of 0%Z (initial_table c)) h.
+  c05_monotone (snap_of 0%Z (initial_table c)) h && c05_suggest c (snap_of 0%Z (initial_table c)) true h.
 
 (* C06: envelope of every reply *)
 Definition c06_round (c : scfg) (r : round) : bool :=
